@@ -16,8 +16,9 @@ Core Lean only.
 import PrimaiteModel.Model.Basic
 namespace Primaite.Reward
 
-/-- what a failed Python operation raises (`cycle` = the `RuntimeError` of `setup_reward_sharing`) -/
-inductive Err | cycle | keyError | indexError | typeError | attributeError
+/-- what a failed Python operation raises (`cycle` = the `RuntimeError` of `setup_reward_sharing`; `validationError` = pydantic's
+`ValidationError` for a component configuration that violates its schema) -/
+inductive Err | cycle | keyError | indexError | typeError | attributeError | validationError
 deriving DecidableEq, Repr
 
 /-- a dictionary key: `str`, `int`, or anything else hashable (opaque; equal only to itself) -/
